@@ -47,6 +47,8 @@ impl Storage {
         let key = wal_key.to_string();
         tokio::task::spawn_blocking(move || engine.batch_append_for_topic(&key, &[&data]))
             .await??;
+        #[cfg(walrus_verif)]
+        crate::verif::point("written", wal_key.to_string()).await;
         Ok(())
     }
 
@@ -98,8 +100,12 @@ struct BucketGuard<'a> {
 impl<'a> BucketGuard<'a> {
     async fn lock(storage: &'a Storage, wal_key: &str) -> Result<Self> {
         storage.ensure_lease(wal_key).await?;
+        #[cfg(walrus_verif)]
+        crate::verif::point("lease-checked", wal_key.to_string()).await;
         let lock = storage.lock_for_key(wal_key).await;
         let guard = lock.lock_owned().await;
+        #[cfg(walrus_verif)]
+        crate::verif::point("locked", wal_key.to_string()).await;
         Ok(Self {
             _lock: guard,
             _storage: storage,
